@@ -622,6 +622,14 @@ func c14Scenarios(tier string) []Scenario {
 			for h := 0; h < 4; h++ {
 				add(&ServerScenario{V6: v6, Dgs: seq, EndErrAt: n, CloseAt: -1, Handler: h, Bound: -1}, "long-sequence")
 			}
+			if n >= 300 {
+				// every datagram decodes: n handlers are alive at once under handler 3
+				var all []SrvDgKind
+				for i := 0; i < n; i++ {
+					all = append(all, []SrvDgKind{SdValidA, SdValidB, SdZeroIP}[i%3])
+				}
+				add(&ServerScenario{V6: v6, Dgs: all, EndErrAt: n, CloseAt: -1, Handler: 3, Bound: -1}, "long-sequence")
+			}
 		}
 	}
 	return out
